@@ -270,6 +270,9 @@ type vc35World struct {
 	busyOpen   uint64
 	halfRemove map[int]bool // phase-scoped: merged (peer+bcst) entry removed from a message exactly once
 	removes    int64
+	// the most recent message build ended empty although entries had been added
+	lastBuildEmptied bool
+	emptiedBuilds    int64
 
 	senderInit atomic.Bool
 	resetCh    chan struct{}
@@ -368,19 +371,36 @@ type vc35TapMsg struct {
 	w       *vc35World
 	adds    map[cid.Cid]int
 	removed map[cid.Cid]int
+	added   int // AddEntry + Cancel calls in the current build
 }
 
 func (m *vc35TapMsg) AddEntry(k cid.Cid, p int32, t pb.Message_Wantlist_WantType, sdh bool) int {
 	m.adds[k]++
+	m.added++
 	n := m.BitSwapMessage.AddEntry(k, p, t, sdh)
 	vc35Perturb(m.w.loopR, m.w.buildDelay)
 	return n
 }
 
 func (m *vc35TapMsg) Cancel(k cid.Cid) int {
+	m.added++
 	n := m.BitSwapMessage.Cancel(k)
 	vc35Perturb(m.w.loopR, m.w.buildDelay)
 	return n
+}
+
+// Empty is asked by sendMessage right after the message was built. A message
+// that had entries added and is empty now was emptied by the re-check under
+// the lock (everything in it was cancelled or changed during construction).
+func (m *vc35TapMsg) Empty() bool {
+	e := m.BitSwapMessage.Empty()
+	m.w.mu.Lock()
+	m.w.lastBuildEmptied = e && m.added > 0
+	if m.w.lastBuildEmptied {
+		m.w.emptiedBuilds++
+	}
+	m.w.mu.Unlock()
+	return e
 }
 
 func (m *vc35TapMsg) Remove(k cid.Cid) { // called with mq.wllock held: no pause here
@@ -406,6 +426,7 @@ func (m *vc35TapMsg) Reset(full bool) {
 	w.mu.Unlock()
 	clear(m.adds)
 	clear(m.removed)
+	m.added = 0
 	m.BitSwapMessage.Reset(full)
 }
 
@@ -670,7 +691,16 @@ func (w *vc35World) quiesce() bool {
 				d := fmt.Sprintf("pending peer wants=%d, pending broadcast wants=%d, queued cancels=%d; messages sent so far=%d; outgoingWork signal queued=%v",
 					w.mq.peerWants.pending.Len(), w.mq.bcstWants.pending.Len(), w.mq.cancels.Len(), o1.msgs, o1.signal != 0)
 				w.mq.wllock.Unlock()
-				w.k.Fail("stalled-pending-work", "a current want is never left unsent (queue idle with work pending and no send scheduled)",
+				class := "stalled-pending-work"
+				w.mu.Lock()
+				if w.lastBuildEmptied {
+					// trigger of the known defect: sendMessage returns on an
+					// emptied message without looking at what is still pending
+					class = "message-emptied-during-construction/stalled-pending-work"
+					d += "; the last message built was emptied by last-minute removals"
+				}
+				w.mu.Unlock()
+				w.k.Fail(class, "a current want is never left unsent (queue idle with work pending and no send scheduled)",
 					"every pending want/cancel is sent once the producers stop", d)
 				return false
 			}
@@ -771,7 +801,11 @@ func (w *vc35World) check(ph int, where string) {
 				fmt.Sprintf("cid#%d absent from the replayed want-list\n%s", i, w.trace(ph, i, msgs)))
 			w.tainted[i] = true
 		case has && in&vc35PB != 0 && e.WantType != pb.Message_Wantlist_Block:
-			k.Fail("weak-type", "peer holds the strongest requested type ("+where+")",
+			class := "weak-type"
+			if half[i] {
+				class = "merged-entry-removed/unsent-want" // the want-block was recorded as sent but dropped from the message
+			}
+			k.Fail(class, "peer holds the strongest requested type ("+where+")",
 				fmt.Sprintf("cid#%d as want-block; client intent: %s", i, vc35Intent(in)),
 				fmt.Sprintf("peer holds cid#%d as want-have\n%s", i, w.trace(ph, i, msgs)))
 			w.tainted[i] = true
@@ -965,6 +999,9 @@ func (w *vc35World) finish() {
 	c.Max("max_entries_per_message", maxEntries)
 	c.Count("calls_overlapping_sender_busy", overlap)
 	c.Count("last_minute_removals_from_message", removes)
+	w.mu.Lock()
+	c.Count("messages_emptied_during_construction", w.emptiedBuilds)
+	w.mu.Unlock()
 	c.Count("rewants_with_cancel_queued", rewants)
 	c.Count("quiescent_checks", w.checks)
 	c.Count("cid_comparisons", w.cidChecks)
